@@ -14,6 +14,8 @@ def one(sid):
         meta = json.load(open(os.path.join(d, 'meta.json')))
     except Exception as e:
         return sid, {'error': 'meta.json: %r' % e}
+    if meta.get('retired'):
+        return sid, {'retired': meta['retired'], 'caught': True}
     ids = [k for k, v in (meta.get('checks') or {}).items() if v.get('exit') == 1] or list((meta.get('checks') or {}).keys())
     r = subprocess.run(['/venv/bin/python', os.path.join(HERE, 'tools', 'seedcheck.py'), d, '--checks', ','.join(ids)], capture_output=True, text=True)
     try:
@@ -32,7 +34,7 @@ def main():
     with concurrent.futures.ThreadPoolExecutor(jobs) as ex:
         for sid, res in ex.map(one, sids):
             out[sid] = res
-            print('%-8s %s' % (sid, 'caught by ' + ','.join(k for k, v in res.get('checks', {}).items() if v == 1) if res.get('caught') else 'NOT CAUGHT %s' % res), flush=True)
+            print('%-8s %s' % (sid, 'retired' if res.get('retired') else ('caught by ' + ','.join(k for k, v in res.get('checks', {}).items() if v == 1) if res.get('caught') else 'NOT CAUGHT %s' % res)), flush=True)
     bad = [s for s, r in out.items() if not r.get('caught')]
     json.dump({'seeds': len(out), 'caught': len(out) - len(bad), 'not_caught': bad, 'results': out}, open(os.path.join(HERE, 'seeded', 'REGRESSION.json'), 'w'), indent=1, sort_keys=True)
     print('%d seeds, %d caught, not caught: %s' % (len(out), len(out) - len(bad), bad))
